@@ -770,7 +770,6 @@ func returnsOnlyNonZero(f *ssa.Function) bool {
 	return n > 0
 }
 
-
 // chainField: addr is &root.e1.e2.f where e1, e2 are embedded structs (or
 // addr is &root.f): the struct type that declares f and f's index.
 func chainField(addr ssa.Value, root ssa.Value) (*types.Named, int, bool) {
